@@ -19,9 +19,9 @@ package main
 import (
 	"fmt"
 	"go/constant"
-	"os"
 	"go/token"
 	"go/types"
+	"os"
 
 	"golang.org/x/tools/go/ssa"
 )
@@ -75,10 +75,25 @@ func involvesEnumHelper(v ssa.Value, d int) bool {
 			return true
 		}
 	}
+	// a flag / verdict kept in a field of an unexported irismod record (a plan worked out by a helper)
+	planField := func(st types.Type) bool {
+		if p, ok := st.Underlying().(*types.Pointer); ok {
+			st = p.Elem()
+		}
+		n, ok := st.(*types.Named)
+		return ok && n.Obj().Pkg() != nil && isIrismodPath(n.Obj().Pkg().Path()) && !n.Obj().Exported() && isSmallConstType(v.Type())
+	}
 	switch x := v.(type) {
+	case *ssa.Field:
+		return planField(x.X.Type())
 	case *ssa.BinOp:
 		return involvesEnumHelper(x.X, d+1) || involvesEnumHelper(x.Y, d+1)
 	case *ssa.UnOp:
+		if x.Op == token.MUL {
+			if fa, ok := x.X.(*ssa.FieldAddr); ok {
+				return planField(fa.X.Type())
+			}
+		}
 		if x.Op == token.NOT || x.Op == token.XOR || x.Op == token.SUB {
 			return involvesEnumHelper(x.X, d+1)
 		}
@@ -572,7 +587,9 @@ func (w *Walker) allocFieldAlts(fr *Frame, a *ssa.Alloc, idx int, at ssa.Instruc
 		if !ok {
 			return nil, false
 		}
-		add(factMap(w.blockFacts(fr, s.st.Block(), 4)), s.st, as)
+		for _, base := range w.pathBases(fr, s.st) {
+			add(base, s.st, as)
+		}
 	}
 	if !must {
 		// zero-initialised local
@@ -677,5 +694,31 @@ func (w *Walker) condAltFactsJoint(fr *Frame, conds []Fact) []FactT {
 		out = append(out, common[k])
 	}
 	w.altMemo[mk] = out
+	return out
+}
+
+// pathBases: the facts under which the instruction executes, one set per path from the
+// function's entry when the paths differ in what they decide (a store under `a || b` is
+// reached with a, or with ¬a ∧ b); the dominating facts otherwise.
+func (w *Walker) pathBases(fr *Frame, at ssa.Instruction) []map[string]FactT {
+	dom := factMap(w.blockFacts(fr, at.Block(), 4))
+	envs, complete := pathAssignments(fr.Fn, at, func(v ssa.Value) string { return w.ts.Of(v, fr).LooseString() })
+	if !complete || len(envs) < 2 || len(envs) > 8 {
+		return []map[string]FactT{dom}
+	}
+	var out []map[string]FactT
+	for _, e := range envs {
+		var fs []FactT
+		for k, v := range e {
+			fs = append(fs, FactT{Text: k, Holds: v})
+		}
+		m, feasible := mergeFacts(dom, factMap(withEquivalents(fs)))
+		if feasible {
+			out = append(out, m)
+		}
+	}
+	if len(out) == 0 {
+		return []map[string]FactT{dom}
+	}
 	return out
 }
